@@ -105,7 +105,8 @@ Section WithMai.
   (* the switch on index/alen shared by RawSet and RawSetInt *)
   Definition set_arr (a : list value) (index : Z) (v : value) : list value :=
     let alen := len a in
-    if index =? alen then a ++ [v]
+    if is_nil v && (alen <=? index) then a      (* deleting an absent key stores nothing *)
+    else if index =? alen then a ++ [v]
     else if alen <? index then a ++ repeat VNil (Z.to_nat (index - alen)) ++ [v]
     else upd a (Z.to_nat index) v.
 
